@@ -180,7 +180,8 @@ func (tx *Tx) CalcInputPreimageLegacy(inputNumber uint32, shf sighash.Flag) ([]b
 	// cleverly construct transactions which can steal those coins provided
 	// they can reuse signatures.
 	if shf.HasWithMask(sighash.Single) && int(inputNumber) > len(tx.Outputs)-1 {
-		return defaultHex, nil
+		// a copy: the result is the caller's, the constant is shared by all calls.
+		return append([]byte{}, defaultHex...), nil
 	}
 
 	txCopy := tx.Clone()
